@@ -923,9 +923,25 @@ def _callees(node):
     return out
 
 
-def _stmt_tree(stmts, where):
-    """the statement skeleton of a setter as a Lean `List Stmt` literal; refuses statement kinds the analysis has no rule for"""
+def _stmt_tree(stmts, where, methods=None, depth=0, loopvars=None):
+    """the statement skeleton of a setter as a Lean `List Stmt` literal; refuses statement kinds the analysis has no rule for.
+    `methods`: the FunctionDefs of the setter's class — a private helper of the same class called as a statement (`self._helper(...)`) is
+    inlined (one level); `loopvars`: loop variable -> iterable text, an attribute of a loop element gets the iterable into its name"""
     import ast
+
+    methods = methods or {}
+    loopvars = loopvars or {}
+    rec = lambda body, lv=None: _stmt_tree(body, where, methods, depth, loopvars if lv is None else lv)
+
+    def base_name(t):
+        while isinstance(t, (ast.Attribute, ast.Subscript)):
+            t = t.value
+        return t.id if isinstance(t, ast.Name) else None
+
+    def pure_attr(v):
+        while isinstance(v, ast.Attribute):
+            v = v.value
+        return isinstance(v, ast.Name)
 
     items = []
     for st in stmts:
@@ -935,19 +951,41 @@ def _stmt_tree(stmts, where):
             cs = _callees(st.value)
             for t in st.targets:
                 is_attr = not (isinstance(t, ast.Name) or (isinstance(t, ast.Tuple) and all(isinstance(e, ast.Name) for e in t.elts)))
-                items.append(f".assign {_lq(ast.unparse(t))} {'true' if is_attr else 'false'} {_lstrs(cs)}")
+                tt = ast.unparse(t)
+                if is_attr and base_name(t) in loopvars:
+                    b_ = base_name(t)
+                    items.append(f".assignElem {_lq(f'{tt} [{b_} in {loopvars[b_]}]')} {_lstrs(cs)}")
+                elif is_attr and isinstance(st.value, ast.Name) and len(st.targets) == 1:
+                    items.append(f".restore {_lq(tt)} {_lq(st.value.id)}")          # attribute = local
+                elif not is_attr and isinstance(t, ast.Name) and isinstance(st.value, ast.Attribute) and pure_attr(st.value) and len(st.targets) == 1:
+                    items.append(f".save {_lq(tt)} {_lq(ast.unparse(st.value))}")  # local = attribute (a reference kept for later)
+                else:
+                    items.append(f".assign {_lq(tt)} {'true' if is_attr else 'false'} {_lstrs(cs)}")
                 cs = []
         elif isinstance(st, ast.Expr):
-            items.append(f".expr {_lstrs(_callees(st.value))}")
+            v = st.value
+            if depth == 0 and isinstance(v, ast.Call) and isinstance(v.func, ast.Attribute) and isinstance(v.func.value, ast.Name) \
+                    and v.func.value.id == "self" and v.func.attr.startswith("_") and v.func.attr in methods:
+                arg_cs = [c for a_ in list(v.args) + [k.value for k in v.keywords] for c in _callees(a_)]
+                body = _stmt_tree(methods[v.func.attr].body, f"{where} -> {v.func.attr}", methods, depth + 1, {})
+                items.append(f".inline {_lq('self.' + v.func.attr)} {_lstrs(arg_cs)} {body}")
+            else:
+                items.append(f".expr {_lstrs(_callees(v))}")
         elif isinstance(st, ast.Raise):
             exc = st.exc.func if isinstance(st.exc, ast.Call) else st.exc
             items.append(f".raise {_lq(ast.unparse(exc) if exc is not None else '')}")
         elif isinstance(st, ast.Return):
             items.append(f".ret {_lstrs(_callees(st.value))}")
         elif isinstance(st, ast.If):
-            items.append(f".ite {_lstrs(_callees(st.test))} {_stmt_tree(st.body, where)} {_stmt_tree(st.orelse, where)}")
+            items.append(f".ite {_lstrs(_callees(st.test))} {rec(st.body)} {rec(st.orelse)}")
         elif isinstance(st, ast.For) and not st.orelse:
-            items.append(f".loop {_lstrs(_callees(st.iter))} {_stmt_tree(st.body, where)}")
+            lv = dict(loopvars)
+            if isinstance(st.target, ast.Name):
+                lv[st.target.id] = ast.unparse(st.iter)
+            items.append(f".loop {_lstrs(_callees(st.iter))} {rec(st.body, lv)}")
+        elif isinstance(st, ast.Try) and len(st.handlers) == 1 and not st.orelse and not st.finalbody and st.handlers[0].name is None:
+            h = st.handlers[0]
+            items.append(f".tryExcept {rec(st.body)} {_lq(ast.unparse(h.type) if h.type is not None else '')} {rec(h.body)}")
         elif isinstance(st, (ast.Import, ast.ImportFrom, ast.Pass)):
             items.append(f".skip {_lq(type(st).__name__)}")
         else:
@@ -976,12 +1014,13 @@ def gen_Setters():
         mod = importlib.import_module("magpylib._src.obj_classes." + fname[:-3])
         for cls in [n for n in tree.body if isinstance(n, ast.ClassDef)]:
             real = getattr(mod, cls.name)
+            cls_methods = {n.name: n for n in cls.body if isinstance(n, ast.FunctionDef) and not n.decorator_list}
             for fn in [n for n in cls.body if isinstance(n, ast.FunctionDef)]:
                 if any(isinstance(d, ast.Attribute) and d.attr == "setter" for d in fn.decorator_list):
                     params = [a.arg for a in fn.args.args]
                     if len(params) != 2:
                         raise Refusal(f"setter {cls.name}.{fn.name} does not have the signature (self, value)")
-                    setters.append((fname, cls.name, fn.name, params[1], _stmt_tree(fn.body, f"{cls.name}.{fn.name}")))
+                    setters.append((fname, cls.name, fn.name, params[1], _stmt_tree(fn.body, f"{cls.name}.{fn.name}", cls_methods)))
                 if fn.name != "__init__":
                     continue
                 # ---- constructor: how each named parameter is consumed
@@ -1134,9 +1173,15 @@ def gen_Setters():
     body = ("import MagpyVerif.Gen.Attr\n\nnamespace MagpyVerif.Gen.Setters\n\n"
             "/-- statement skeleton of a setter body: call names in evaluation order, assignment targets (attribute / subscript target or local name),\n"
             "raises, returns, branches and loops -/\n"
-            "inductive Stmt where\n  | assign (target : String) (isAttr : Bool) (callees : List String)\n  | expr (callees : List String)\n"
+            "inductive Stmt where\n  | assign (target : String) (isAttr : Bool) (callees : List String)\n"
+            "  /-- `<loop element>.attr = …`: the target carries the loop's iterable -/\n  | assignElem (target : String) (callees : List String)\n"
+            "  /-- `local = obj.attr` (no call): a reference kept for later -/\n  | save (loc src : String)\n"
+            "  /-- `obj.attr = local` -/\n  | restore (target loc : String)\n  | expr (callees : List String)\n"
             "  | raise (exc : String)\n  | ret (callees : List String)\n  | ite (testCallees : List String) (thn els : List Stmt)\n"
-            "  | loop (iterCallees : List String) (body : List Stmt)\n  | skip (what : String)\n  deriving Repr\n\n"
+            "  | loop (iterCallees : List String) (body : List Stmt)\n"
+            "  /-- `try: body / except <excType>: handler` (one handler, no else / finally) -/\n  | tryExcept (body : List Stmt) (excType : String) (handler : List Stmt)\n"
+            "  /-- `self._helper(args)` as a statement, helper defined in the same class: its body -/\n  | inline (callee : String) (argCallees : List String) (body : List Stmt)\n"
+            "  | skip (what : String)\n  deriving Repr\n\n"
             "structure Setter where\n  file : String\n  cls : String\n  attr : String\n  param : String\n  body : List Stmt\n  deriving Repr\n\n"
             "/-- every `@x.setter` of magpylib/_src/obj_classes/class_*.py -/\n"
             "def setters : List Setter := [\n" + ",\n".join(f"  ⟨{_lq(f)}, {_lq(c)}, {_lq(a)}, {_lq(p)}, {t}⟩" for f, c, a, p, t in setters) + "]\n\n"
